@@ -100,7 +100,23 @@ class Roles:
         if vh is None:
             return []
         db = self.prog.facts.body(actor.dispatch)
-        return [self.effect_body(self.prog.qual(db, tgt)) for (bb, tgt) in vh.calls]
+        di = self.prog.info(actor.dispatch)
+        # the handler of a variant is the method that takes its payload; a method the arm calls afterwards with the
+        # handler's result (`self.wake(wake)`, `self.record(outcome)`) is not a handler of the request
+        adt = self.prog.facts.adt(actor.request)
+        ptys = [f["ty"] for v in adt["variants"] if v["name"] == variant for f in v["fields"]
+                if not f["ty"].startswith("tokio::sync::oneshot::Sender<") and f["name"] != "responder"]
+        calls = list(vh.calls)
+        if ptys and len(calls) > 1:
+            taking = []
+            for (bb, tgt) in calls:
+                t = di.body.blocks[bb].term
+                atys = [di.body.operand_ty(a) or "" for a in (t.args if t.k == "call" else [])]
+                if any(a == p or a.lstrip("&").replace("mut ", "") == p for a in atys for p in ptys):
+                    taking.append((bb, tgt))
+            if taking:
+                calls = taking
+        return [self.effect_body(self.prog.qual(db, tgt)) for (bb, tgt) in calls]
 
     def variant_with_field_type(self, actor, prefix):
         adt = self.prog.facts.adt(actor.request)
